@@ -94,18 +94,33 @@ def run(ctx, chk, tier="quick"):
     preds += conjuncts(sel.where)
     lower = upper = None
     src_tab = [s.table for s in sel.sources if s.table not in cte]
+    def extreme(e):
+        """(MIN|MAX, column, [tables]) if e is a CTE alias of, or a scalar sub-query for, an extreme of one column"""
+        if e[0] == "col" and e[2] in alias_expr:
+            return alias_expr[e[2]]
+        if e[0] == "subq":
+            q_ = e[1]
+            if len(q_.columns) == 1 and not q_.where and not q_.group_by and all(s_.subq is None and s_.on is None for s_ in q_.sources):
+                c_ = q_.columns[0][0]
+                if c_[0] == "call" and c_[1] in ("MIN", "MAX") and c_[2] and c_[2][0][0] == "col":
+                    return (c_[1], c_[2][0][2], [s_.table for s_ in q_.sources])
+        return None
+
     for pr in preds:
-        if pr[0] == "bin" and pr[1] in (">=", ">", "<=", "<") and pr[2][0] == "col" and pr[3][0] == "col":
+        if pr[0] == "bin" and pr[1] in (">=", ">", "<=", "<"):
             l, r, op = pr[2], pr[3], pr[1]
-            if l[2] in alias_expr:
+            if extreme(l) is not None:
                 l, r = r, l
                 op = {"<": ">", ">": "<", "<=": ">=", ">=": "<="}[op]
-            if r[2] in alias_expr and l[2] == "epoch":
-                fn, col, tabs = alias_expr[r[2]]
+            if extreme(r) is not None and l[0] == "col" and l[2] == "epoch":
+                fn, col, tabs = extreme(r)
                 if fn == "MIN":
                     lower = (op, col, tabs)
                 else:
                     upper = (op, col, tabs)
+    if lower is None or upper is None:
+        chk.indeterminate("C10.O1", where_of(gt, gs.call), "bounds of the grid query (epoch against the smallest / largest water-level epoch) not recognised")
+        return
     ok = lower == (">=", "epoch", ["water_level_staging"]) and upper == ("<=", "epoch", ["water_level_staging"]) \
         and src_tab == ["rainfall_intensity_staging"]
     chk.ob("C10.O1", ok, where_of(gt, gs.call), "grid = epochs of %s with epoch %s min(%s) and epoch %s max(%s)" % (
